@@ -5,7 +5,8 @@ Session / ProxiedRegion / ProxiedCircuit, real SOCKS5UDPTransport over a capturi
 An exception escaping ``datagram_received`` is handled as asyncio's datagram transport handles it (logged, next datagram
 processed); it is an observation, never a violation by itself.
 
-Universe: 2 sessions (one association each) x 2 regions (main + neighbour); both sessions know the *same* two simulator
+Universe: 2 sessions (one association each) x 2 regions (main from login data + neighbour via register_region; session 0's
+neighbour is registered with its region handle, session 1's without one -- handle is Optional); both sessions know the *same* two simulator
 addresses and viewers and simulators share one IP, so every address-keyed structure collides on purpose.
 
 Alphabet.  Valid datagrams (deviation 0; offered only where the statement's precondition holds in the reference model):
@@ -56,7 +57,9 @@ and flood scenarios (k in {1, 8, 31, 32, 33, 64, 300} distinct unregistered far 
 datagrams, then valid traffic on every open circuit) cover state the proxy might keep *about* garbage (memo sets, bounded maps).
 Separate exhaustive sweeps: SOCKS framing law (emit vs. reference strip, reference emit vs. parse, emit vs. parse) over
 addresses x ports x payload lengths {0,1,1200}; every template in both directions through one open circuit (value rows of
-hmc.msggen; banned templates inbound must be discarded).
+hmc.msggen; banned templates inbound must be discarded); the same sweep (row 0) also through a neighbour circuit next to the
+open main circuit, and through a neighbour registered *without* a handle, alone and next to the main circuit (message
+types the proxy special-cases -- RegionHandshake, AgentMovementComplete, ... -- depend on how the region was registered).
 
 Deviations from DESIGN §C06, forced by the code: (1) viewer -> sim datagrams of a UDP-banned *name* are treated as ordinary
 traffic (the ban list is an inbound rule in lludp_proxy; stated in run.assumptions); (2) BFS is run from two bases (empty
@@ -184,13 +187,14 @@ class Model:
 class Harness:
     copyable = False
 
-    def __init__(self, n_sessions: int = 2, base: str = "empty"):
+    def __init__(self, n_sessions: int = 2, base: str = "empty", neighbour_handle: Any = "mixed"):
         self.n = n_sessions
         self.base = base
+        self.neighbour_handle = neighbour_handle
 
     # ---- world ------------------------------------------------------------------------------------
     def fresh(self):
-        w = U.fresh(self.n)
+        w = U.fresh(self.n, neighbour_handle=self.neighbour_handle)
         w.model = Model()
         w.last = None
         w.flags = set()
@@ -642,9 +646,21 @@ def framing_domain_case(n: int, port: int, payload: bytes) -> List[Dict[str, str
 LOOKALIKE_PIDS = (0x100, 0x1FF, 0x300, 0x3FF)
 
 
-def types_case(name: str, k: int, direction: str, counts: Optional[Part] = None, pid: Optional[int] = None) -> List[Dict[str, str]]:
-    """One template, value row k, one direction, through one freshly opened circuit.  ``pid``: flags 0 and that packet
-    id (SOCKS5-header lookalikes for simulator datagrams) instead of the row's header variant."""
+# which circuit the all-templates sweep goes through: (region index, neighbour registered with a handle?, main circuit open too?)
+VIAS = {
+    "main": (0, True, False),                  # login region, the only open circuit
+    "nb-handle+main": (1, True, True),         # neighbour registered with its handle, next to the open main circuit
+    "nb-nohandle": (1, False, False),          # neighbour registered without a handle, the only open circuit
+    "nb-nohandle+main": (1, False, True),      # ... next to the open main circuit
+}
+
+
+def types_case(name: str, k: int, direction: str, counts: Optional[Part] = None, pid: Optional[int] = None,
+               via: str = "main") -> List[Dict[str, str]]:
+    """One template, value row k, one direction, through a freshly opened circuit (``via``: which region / how it was
+    registered / whether a second circuit is open).  ``pid``: flags 0 and that packet id (SOCKS5-header lookalikes for
+    simulator datagrams) instead of the row's header variant."""
+    j, nb_handle, main_open = VIAS[via]
     g = gen()
     case = None
     for n, c in enumerate(g.value_rows(name)):
@@ -662,18 +678,20 @@ def types_case(name: str, k: int, direction: str, counts: Optional[Part] = None,
         case = dict(case)
         case.update(flags=0, packet_id=pid, acks=(), extra=b"")
     lludp = U.serialize(g.lib_message(case))
-    h = Harness(n_sessions=1, base="empty")
+    h = Harness(n_sessions=1, base="empty", neighbour_handle=nb_handle)
     w = h.fresh()
-    h.step(w, ("U", 0, 0))
+    if main_open and j != 0:
+        h.step(w, ("U", 0, 0))
+    h.step(w, ("U", 0, j))
     if w.violations:
         return [dict(v, site="types-setup:" + v["site"]) for v in w.violations]
     before = w.session_state(0)
     if direction == OUT:
-        sends, exc = w.deliver(0, U.socks_wrap(lludp, U.SIMS[0]), U.VIEWERS[0])
+        sends, exc = w.deliver(0, U.socks_wrap(lludp, U.SIMS[j]), U.VIEWERS[0])
     else:
-        sends, exc = w.deliver(0, lludp, U.SIMS[0])
+        sends, exc = w.deliver(0, lludp, U.SIMS[j])
     exn = type(exc).__name__ if exc is not None else None
-    site = f"{direction}:{name}"
+    site = f"{direction}:{name}" + ("" if via == "main" else f":via={via}")
     if direction == IN and name in _BANNED:
         if sends:
             bad("garbage-zero-sends", "banned:" + name, f"UDP-banned {name} from the simulator caused {len(sends)} sendto")
@@ -682,9 +700,9 @@ def types_case(name: str, k: int, direction: str, counts: Optional[Part] = None,
         if counts is not None:
             counts.outcome(("banned", len(sends), exn))
         return out
-    check_valid(bad, 0, 0, direction, lludp, sends, exn, site, counts)
+    check_valid(bad, 0, j, direction, lludp, sends, exn, site, counts)
     if counts is not None:
-        counts.outcome((direction, len(sends), exn, "ok" if not out else out[0]["clause"]))
+        counts.outcome((direction, via, len(sends), exn, "ok" if not out else out[0]["clause"]))
         if exn or len(sends) != 1 or w.session_state(0)[2] != before[2]:
             counts.mark_nontrivial(("types", name, direction, k))
     return out
@@ -694,16 +712,19 @@ _BANNED: List[str] = []
 
 
 def _types_worker(item):
-    name, k, direction, pid = item
+    name, k, direction, pid, via = item
     part = Part()
     part.count("evaluations")
     part.count("types_cases")
+    if via != "main":
+        part.count("types_cases_other_registration")
+        part.mark_nontrivial(("types-via", name, direction, via))
     if pid is not None:
         part.count("types_cases_socks_lookalike_id")
         part.mark_nontrivial(("types-lookalike", name, pid))
-    for v in types_case(name, k, direction, part, pid):
+    for v in types_case(name, k, direction, part, pid, via):
         part.violation(v["clause"], v["site"] + ("" if pid is None else ":socks-lookalike-id"),
-                       {"kind": "types", "name": name, "row": k, "dir": direction, "seed": _SEED, "pid": pid}, v["detail"])
+                       {"kind": "types", "name": name, "row": k, "dir": direction, "seed": _SEED, "pid": pid, "via": via}, v["detail"])
     return part.dump()
 
 
@@ -911,10 +932,15 @@ def run(run: Run):
         rows = g.n_rows(g.templates[name])
         ks = range(min(rows, 2)) if quick else range(rows)
         for k in ks:
-            items.append((name, k, OUT, None))
-            items.append((name, k, IN, None))
+            items.append((name, k, OUT, None, "main"))
+            items.append((name, k, IN, None, "main"))
         for lp in LOOKALIKE_PIDS:
-            items.append((name, 0, IN, lp))
+            items.append((name, 0, IN, lp, "main"))
+        # every message type x how the region was registered / how many circuits are open
+        for via in VIAS:
+            if via != "main":
+                items.append((name, 0, OUT, None, via))
+                items.append((name, 0, IN, None, via))
     for d in pmap(_types_worker, items, run.jobs):
         run.merge(d)
     run.coverage_extra.update(depth=depth, deviation_bound=devb, templates=len(refwire.templates()), banned_templates=len(_BANNED),
@@ -934,7 +960,7 @@ def replay(witness):
         return Harness(2, witness.get("base", "empty")).run_history([tuple(e) for e in witness["history"]])
     if kind == "types":
         return types_case(witness["name"], int(witness["row"]), witness["dir"], None,
-                          int(witness["pid"]) if witness.get("pid") is not None else None)
+                          int(witness["pid"]) if witness.get("pid") is not None else None, witness.get("via", "main"))
     if kind == "framing":
         return framing_case(witness["addr"], int(witness["port"]), witness["payload"])
     if kind == "framing-domain":
